@@ -166,7 +166,7 @@ func HarnessC06Bind() {
 	req := reconcile.Request{NamespacedName: types.NamespacedName{Namespace: "team", Name: "cm"}}
 
 	s.FaultAt = zz.Choose("fault.at", zz.Bound(10, 12)) - 1
-	s.FaultKind = 1 + zz.Choose("fault.kind", 2)
+	s.FaultKind = 1 + zz.Choose("fault.kind", 3)
 	if s.FaultAt < 0 && !stale {
 		// instead of a fault: another actor writes the claim immediately before
 		// the reconcile's j-th API call (what the reconciler holds is stale
